@@ -259,13 +259,14 @@ def _iscased_uni(c):
 # ----------------------------------------------------------------------
 # Thompson NFA with assertion edges
 # ----------------------------------------------------------------------
-EPS, CHAR, BOL, EOL, EOS, WB, NWB = range(7)
+EPS, CHAR, BOL, EOL, EOS, WB, NWB, LB, NLB = range(9)
 
 
 class RawNFA(object):
     def __init__(self):
         self.edges = []  # per state: list of (kind, payload, target)
         self.uses_wb = False
+        self.lb_sets = []  # charset ids used by single-character look-behinds
 
     def new(self):
         self.edges.append([])
@@ -282,6 +283,7 @@ class Algebra(object):
         self.charsets = {}  # interval tuple -> id
         self.charset_list = []
         self.frozen = False
+        self.gen = 0
         self.word_set = _ASCII_WORD if bytes_mode else None
         self._uses_wb = False
         self.state_cap = 400000
@@ -292,7 +294,10 @@ class Algebra(object):
         i = self.charsets.get(iv)
         if i is None:
             if self.frozen:
-                raise RuntimeError("alphabet already frozen")
+                # a new character set after freezing: the partition must be recomputed;
+                # automata rebuild themselves lazily (generation counter)
+                self.frozen = False
+                self.gen += 1
             i = len(self.charset_list)
             self.charsets[iv] = i
             self.charset_list.append(iv)
@@ -699,7 +704,24 @@ class _Builder(object):
             else:
                 raise Unsupported("anchor %r" % (av,))
         elif op in (C.ASSERT, C.ASSERT_NOT):
-            raise Unsupported("look-around")
+            direction, body = av
+            body = list(body)
+            if direction < 0 and len(body) == 1 and body[0][0] in (C.LITERAL, C.NOT_LITERAL, C.IN, C.ANY):
+                bop, bav = body[0]
+                if bop is C.LITERAL:
+                    iv = self.lit(bav)
+                elif bop is C.NOT_LITERAL:
+                    iv = complement(self.lit(bav), self.alg.maxc)
+                elif bop is C.ANY:
+                    iv = ((0, self.alg.maxc),) if self.dotall else complement(((10, 10),), self.alg.maxc)
+                else:
+                    iv = self.in_set(bav)
+                cid = self.alg.cs(iv)
+                if cid not in nfa.lb_sets:
+                    nfa.lb_sets.append(cid)
+                nfa.add(s, LB if op is C.ASSERT else NLB, cid, e)
+            else:
+                raise Unsupported("look-around")
         elif op is C.GROUPREF or op is C.GROUPREF_EXISTS:
             raise Unsupported("back-reference")
         else:
@@ -710,11 +732,11 @@ class _Builder(object):
 # started: 0/1 ; ended: 0 none, 1 passed '$' (one final \n allowed), 2 nothing more
 # prev: 0 none/nonword, 1 word ; need: 0 any, 1 word, 2 nonword-or-end, 3 impossible
 def _mon(started, ended, prev, need):
-    return started | (ended << 1) | (prev << 3) | (need << 4)
+    return started | (ended << 1) | (need << 3) | (prev << 5)
 
 
 def _unmon(m):
-    return m & 1, (m >> 1) & 3, (m >> 3) & 1, (m >> 4) & 3
+    return m & 1, (m >> 1) & 3, m >> 5, (m >> 3) & 3
 
 
 _NEED_MEET = {
@@ -748,18 +770,38 @@ class NfaAuto(Auto):
         self.nacc = acc
         self.name = name
         self._built = False
+        self._gen = -1
 
     def _build(self):
-        if self._built:
+        if self._built and self._gen == self.alg.gen and self.alg.frozen:
             return
         alg = self.alg
         alg.freeze()
         self._built = True
+        self._gen = alg.gen
         nfa = self.nfa
         NL = alg.mask_of(((10, 10),)) if nfa_has_end(nfa) else 0
         self.nl_mask = NL
         uses_wb = nfa.uses_wb
         wordm = alg.word_mask
+        # tracked sets: bit 0 = word set (if \\b used), then one bit per look-behind set
+        tracked = []
+        if uses_wb:
+            tracked.append(wordm)
+        lb_bit = {}
+        for cid in nfa.lb_sets:
+            lb_bit[cid] = len(tracked)
+            tracked.append(alg.cs_mask[cid])
+        # group classes by membership vector
+        vec_masks = {}
+        if tracked:
+            for k in range(alg.nclasses):
+                v = 0
+                for i, tm in enumerate(tracked):
+                    if (tm >> k) & 1:
+                        v |= 1 << i
+                vec_masks[v] = vec_masks.get(v, 0) | (1 << k)
+        wb_bit = 0 if uses_wb else None
         # expanded nodes (q, mon) -> id
         ids = {}
         self.x_eps = []
@@ -796,9 +838,15 @@ class NfaAuto(Auto):
                     self.x_eps[i].append(node(t, _mon(st, max(en, 1), pv, nd)))
                 elif kind == EOS:
                     self.x_eps[i].append(node(t, _mon(st, 2, pv, nd)))
+                elif kind in (LB, NLB):
+                    bit = lb_bit[payload]
+                    holds = bool(st) and bool((pv >> bit) & 1)
+                    if holds == (kind == LB):
+                        self.x_eps[i].append(node(t, m))
                 elif kind in (WB, NWB):
                     # \b: word(prev) != word(next);  \B: equal
-                    want_next_word = (not pv) if kind == WB else bool(pv)
+                    pw = bool(pv & 1)
+                    want_next_word = (not pw) if kind == WB else pw
                     nn = _NEED_MEET.get((nd, 1 if want_next_word else 2), 3)
                     if nn != 3:
                         self.x_eps[i].append(node(t, _mon(st, en, pv, nn)))
@@ -813,18 +861,18 @@ class NfaAuto(Auto):
                         nen = 2
                     else:
                         nen = 0
-                    if uses_wb:
+                    if tracked:
                         parts = []
-                        mw = mask & wordm
-                        mn = mask & ~wordm
-                        if nd == 1:
-                            mn = 0
-                        elif nd == 2:
-                            mw = 0
-                        if mw:
-                            parts.append((mw, 1))
-                        if mn:
-                            parts.append((mn, 0))
+                        for v, vm in vec_masks.items():
+                            pm = mask & vm
+                            if not pm:
+                                continue
+                            if uses_wb:
+                                if nd == 1 and not (v & 1):
+                                    continue
+                                if nd == 2 and (v & 1):
+                                    continue
+                            parts.append((pm, v))
                     else:
                         parts = [(mask, 0)]
                     for pm, npv in parts:
@@ -911,8 +959,12 @@ class ProdAuto(Auto):
         self.b = b
         self.op = op
         self._steps = {}
+        self._gen = alg.gen
 
     def start(self):
+        if self._gen != self.alg.gen:
+            self._steps = {}
+            self._gen = self.alg.gen
         return (self.a.start(), self.b.start())
 
     def accepting(self, s):
